@@ -430,6 +430,11 @@ def anneal_quso(L, num_anneals=1, anneal_duration=1000, initial_state=None,
     )
 
     # must use type since we don't want errors from inheritance
+    if type(L) == PUSOMatrix:
+        # a Matrix input stays a Matrix input, as in ``anneal_puso``
+        # (raises a KeyError if the degree is more than 2)
+        L = QUSOMatrix(L)
+
     if type(L) == QUSOMatrix:
         N = 0 if L.max_index is None else L.max_index + 1
         model = L
